@@ -36,7 +36,9 @@ H3 (dsched): the real HDF5Recorder (real h5py inside the managed recorder thread
   half of the runs — at every source line of run() / record() / set_attribute().  The
   linearisation (order of lock acquisitions, the swap and the end of each write phase) is
   recorded and must be a run of the Coq recorder model ending in the observed file.  ORACLE: per
-  dataset the file holds exactly the recorded blocks in linearisation order; each existing
+  dataset the file holds exactly the recorded blocks — AS THEY WERE PASSED: the recording threads refill one
+  preallocated buffer in place, pass slices / strided / read-only views of arrays they overwrite afterwards, and
+  lists they empty afterwards, directly after record() returned or after a scheduling point — in linearisation order; each existing
   dataset carries the last value set for each attribute.
 """
 import io
@@ -1190,11 +1192,67 @@ def rec_scenario(s, path, plans, write_interval, keep_open, line_level):
     lock_id = id(th._condition._lock)
     tid_rec = s.by_real[th].tid
 
+    POISON = -777777
+
     def worker(k):
+        # one preallocated buffer per thread, refilled for every 'buffer' record (an acquisition loop)
+        buf = np.zeros(8, dtype=np.int64)
+        bufs = {}                                   # block length -> the thread's preallocated array of that length
         for op in plans[k]:
             if op[0] == "rec":
-                s.log("op", k, "rec", op[1], list(op[2]))
-                rec.record("d%d" % op[1], np.array(op[2], dtype=np.int64))
+                vals = [int(x) for x in op[2]]         # the block AS PASSED: the expected file content
+                n = len(vals)
+                form = op[3] if len(op) > 3 else "fresh"
+                after = None                             # what the caller does to ITS array afterwards
+                if form == "buffer":
+                    # the array object itself (it owns its data) is handed over and refilled for the next block
+                    b = bufs.setdefault(n, np.zeros(n, dtype=np.int64))
+                    b[:] = vals
+                    arg = b
+
+                    def after(b=b):
+                        b[:] = POISON
+                elif form == "bufslice" and n <= len(buf):
+                    buf[:n] = vals
+                    arg = buf[:n]
+
+                    def after():
+                        buf[:] = POISON
+                elif form == "view":
+                    big = np.full(n + 4, 5, dtype=np.int64)
+                    big[2:2 + n] = vals
+                    arg = big[2:2 + n]
+
+                    def after(big=big):
+                        big[:] = POISON
+                elif form == "strided":
+                    big = np.full(2 * n + 1, 5, dtype=np.int64)
+                    big[0:2 * n:2] = vals
+                    arg = big[0:2 * n:2]
+
+                    def after(big=big):
+                        big += 1000003
+                elif form == "readonly":
+                    base = np.array(vals, dtype=np.int64)
+                    arg = base.view()
+                    arg.flags.writeable = False
+
+                    def after(base=base):
+                        base[:] = POISON
+                elif form == "list":
+                    arg = list(vals)
+
+                    def after(arg=arg):
+                        arg[:] = [POISON] * len(arg)
+                        arg.append(POISON)
+                else:
+                    arg = np.array(vals, dtype=np.int64)
+                s.log("op", k, "rec", op[1], vals)
+                rec.record("d%d" % op[1], arg)
+                if after is not None:
+                    if len(op) > 4 and op[4]:
+                        s.yield_point(("after-record", k))    # let the recorder (or anybody) run first
+                    after()
             elif op[0] == "attr":
                 s.log("op", k, "attr", op[1], op[2], op[3])
                 rec.set_attribute("d%d" % op[1], "a%d" % op[2], op[3])
@@ -1238,6 +1296,13 @@ def rec_scenario(s, path, plans, write_interval, keep_open, line_level):
     return obs
 
 
+# how the block is handed to record() and what the caller does with its array afterwards (see worker()):
+# a fresh array; a preallocated array (owning its data) refilled in place; the head of ONE larger preallocated buffer; a slice of a
+# larger array overwritten afterwards; a
+# non-contiguous (strided) view; a read-only view of an array overwritten afterwards; a list emptied afterwards
+REC_FORMS = ["fresh", "buffer", "buffer", "bufslice", "bufslice", "view", "strided", "readonly", "list"]
+
+
 def gen_rec_plans(rng):
     nthreads = rng.choice([1, 2, 2, 3, 3])
     plans = []
@@ -1247,7 +1312,8 @@ def gen_rec_plans(rng):
             r = rng.random()
             if r < 0.6:
                 ln = rng.choice([0, 1, 1, 2, 3])
-                p.append(("rec", rng.randint(0, 2), [k * 10000 + j * 10 + x for x in range(ln)]))
+                p.append(("rec", rng.randint(0, 2), [k * 10000 + j * 10 + x for x in range(ln)], rng.choice(REC_FORMS),
+                          rng.random() < 0.5))
             elif r < 0.8:
                 p.append(("attr", rng.randint(0, 2), rng.randint(0, 1), k * 100 + j))
             else:
@@ -1264,7 +1330,8 @@ def gen_rec_plans_race(rng, wi):
     for k in range(rng.choice([1, 2, 2, 3])):
         p = []
         for j in range(rng.randint(3, 5)):
-            p.append(("rec", rng.choice([0, 0, 1]), [k * 10000 + j * 10 + x for x in range(rng.choice([1, 2]))]))
+            p.append(("rec", rng.choice([0, 0, 1]), [k * 10000 + j * 10 + x for x in range(rng.choice([1, 2]))],
+                      rng.choice(REC_FORMS), rng.random() < 0.5))
             if rng.random() < 0.2:
                 p.append(("attr", rng.choice([0, 1]), rng.randint(0, 1), k * 100 + j))
             if rng.random() < 0.7:
@@ -1297,8 +1364,10 @@ def rec_oracle(plans, res):
     for d in sorted(set(want) | set(got)):
         if got.get(d, []) != want.get(d, []):
             w, g = want.get(d, []), got.get(d, [])
-            kind = "lost" if len(g) < len(w) else "duplicated" if len(g) > len(w) else "reordered"
-            return "blocks-" + kind, "dataset %s holds %r after close(), recorded in this order: %r" % (d, g, w)
+            kind = "altered" if any(x not in w for x in g) else \
+                "lost" if len(g) < len(w) else "duplicated" if len(g) > len(w) else "reordered"
+            return "blocks-" + kind, "dataset %s holds %r after close(); the blocks as they were passed to record(), in this order: %r%s" % (
+                d, g, w, " (the file holds values the caller wrote into its own array AFTER record() had returned)" if kind == "altered" else "")
     for d in got:
         if o["attrs"].get(d, {}) != wattr.get(d, {}):
             return "attrs", "dataset %s has attributes %r, last values set: %r" % (d, o["attrs"].get(d), wattr.get(d, {}))
@@ -1358,6 +1427,11 @@ def do_recorder(cx, nplans, nsched):
         except OSError:
             pass
         ck.count("recorder:threads=%d" % len(plans))
+        for p_ in plans:
+            for op_ in p_:
+                if op_[0] == "rec" and op_[2]:
+                    ck.count("recorder:block-form=%s%s" % (op_[3] if len(op_) > 3 else "fresh",
+                                                          "+yield" if len(op_) > 4 and op_[4] and (op_[3] if len(op_) > 3 else "fresh") != "fresh" else ""))
         ck.count("recorder:" + ("line-level" if ll else "sync-level"))
         ck.count("recorder:status=" + res["status"])
         replay = {"kind": "recorder", "plans": plans, "write_interval": wi, "keep_open": ko, "line_level": ll,
@@ -1406,6 +1480,8 @@ def run(ck):
         "numbered names: axis numbers are exercised up to 34 (numpy arrays have at most 64 axes, HDF5 datasets 32), column numbers up "
         "to 102; int() in the recogniser of special columns is modelled for sign + ASCII digits and for plain ASCII junk only "
         "(white space, underscores, non-ASCII digits inside the number are not generated)",
+        "recorder: a block is the VALUE passed to record() at the time of the call (ndarray of any layout, or list; a tuple is refused "
+        "by the pinned code); set_attribute values are int / float / str as documented (mutable attribute values are outside)",
         "recorder: blocks passed to record() before close() is called; record()/set_attribute() concurrent with close() are outside",
         "file-system races between processes are outside (single process, scratch directory)",
     ]
